@@ -3,35 +3,34 @@ import Dmn.Model.Drg
 /-!
 # What C04 prescribes for a requirement graph (the specification the model is compared with)
 
-The same strict, requirement-by-requirement evaluation as `Dmn.Drg.graphStep`, with the two
-places changed in which the code departs from the property:
+The value of a decision (`decisionValue`) is its logic evaluated in one context
+(`decisionContext`) and coerced to the type of the output variable.  The context binds
 
-* the logic of a decision sees every required decision's variable bound to **that decision's
-  own value**: entries of the input data do not replace the values of required decisions,
-  knowledge models or decision services.  Only inside a decision service are the service's
-  *input decisions* parameters: their names (`sup`) are the only ones that may be replaced
-  (by the values the caller of the service supplied);
-* a knowledge model binds every required knowledge model **and decision service** to a
-  function value (the code *evaluates* a decision service required by a knowledge model on the
-  input data and binds the result).  Hence a knowledge model's closure reads no input data
-  here (its registry has no input parameter).
+* every required input to the supplied value, type-checked;
+* every required decision's variable to **that decision's own value** — except, inside a
+  decision service, the variables of the service's *input decisions*, which are parameters:
+  `sup` holds the values the caller of the service supplied for them, and only these replace
+  values of required decisions (nothing does for a decision invoked by name);
+* every required knowledge model **and decision service** to a function value; a knowledge
+  model's closure therefore reads no input data (its registry has no input parameter).
 
-Everything else is as in the code, including what is evaluated although its value is not
-used: a decision service evaluates its input decisions on the input data (the values are then
-replaced by the supplied ones); while it does so, the specification lets the input data
-replace what the code lets them replace (the values are discarded).
+A decision service evaluates its input decisions on the input data (strictly, although the
+values are then replaced by the supplied ones), then its encapsulated and output decisions on
+the typed input data and supplied input decisions, and returns its output decisions' values.
+
+(Before the repairs of findings F14 and F28 the code departed from this in two places: the
+input data replaced the values of required decisions of the same name, and a decision service
+required by a knowledge model was evaluated instead of bound.  `Dmn.Drg` mirrors the repaired
+code and `eval_invocable_spec` holds without hypotheses.)
 -/
 
 namespace Dmn.Drg.Spec
 
-/-- The entries of `input` whose names are listed in `sup`. -/
-def restrict (sup : List String) (input : Ctx) : Ctx :=
-  input.filter (fun e => sup.contains e.1)
-
-/-- The registries of the specification: decisions additionally receive the names that are
-parameters of the enclosing decision service; knowledge models receive no input data. -/
+/-- The registries of the specification: decisions additionally receive the values supplied
+for the input decisions of the enclosing decision service; knowledge models receive no input
+data. -/
 structure SGraph where
-  decision : String → List String → Ctx → Ctx → Outcome (Option String × Ctx)
+  decision : String → Ctx → Ctx → Ctx → Outcome (Option String × Ctx)
   bkm : String → Ctx → Outcome Ctx
   service : String → Ctx → Ctx → Outcome (Option String × Ctx)
 
@@ -40,7 +39,7 @@ def callBkm (g : Drg) (prev : SGraph) (id : String) (c : Ctx) : Outcome Ctx :=
   | some _ => prev.bkm id c
   | none => .ok c
 
-def callDecision (g : Drg) (prev : SGraph) (id : String) (sup : List String) (input c : Ctx) :
+def callDecision (g : Drg) (prev : SGraph) (id : String) (sup : Ctx) (input c : Ctx) :
     Outcome (Option String × Ctx) :=
   match g.findDecision id with
   | some _ => prev.decision id sup input c
@@ -63,9 +62,9 @@ def bkmClosure (g : Drg) (prev : SGraph) (b : Bkm) (out : Ctx) : Outcome Ctx :=
 /-- The context the logic of decision `d` is evaluated in: the typed values of the required
 inputs, then — shadowing them — the function values of the required knowledge `k1`, the
 required decision services as functions, the values of the required decisions. -/
-def decisionContext (g : Drg) (d : Decision) (sup : List String) (input k3 : Ctx) : Ctx :=
+def decisionContext (g : Drg) (d : Decision) (sup : Ctx) (input k3 : Ctx) : Ctx :=
   -- only the parameters of the enclosing decision service replace required decisions
-  let k4 := Ctx.overwrite k3 (restrict sup input)
+  let k4 := Ctx.overwrite k3 sup
   let inputs := g.typedInputs d.reqInputs input []
   Ctx.zip inputs k4
 
@@ -79,7 +78,7 @@ def coerceResult (t : FType) (o : Outcome (Value × Scope)) : Outcome Value :=
 /-- The value of decision `d`: its logic evaluated in `decisionContext`, coerced to the type of
 its output variable. -/
 def decisionValue (g : Drg) (env : Env) (prev : SGraph) (d : Decision)
-    (sup : List String) (input : Ctx) : Outcome Value :=
+    (sup : Ctx) (input : Ctx) : Outcome Value :=
   match foldCtx (fun id c => callBkm g prev id c) d.reqKnowledge [] with
   | .ok k1 =>
     let k2 := g.serviceFns d.reqKnowledge k1
@@ -99,7 +98,7 @@ def store (var : String) (o : Outcome Value) (out : Ctx) : Outcome (Option Strin
   | .diverge => .diverge
 
 def decisionClosure (g : Drg) (env : Env) (prev : SGraph) (d : Decision)
-    (sup : List String) (input out : Ctx) : Outcome (Option String × Ctx) :=
+    (sup : Ctx) (input out : Ctx) : Outcome (Option String × Ctx) :=
   store d.var (decisionValue g env prev d sup input) out
 
 /-! ### what the names in `decisionContext` are bound to (a later requirement shadows an earlier one) -/
@@ -127,7 +126,7 @@ def serviceBinding (g : Drg) (n : String) : List String → Option Value
       | none => none
 
 /-- a name among the variables of the required decisions: that decision's own value -/
-def decisionBinding (g : Drg) (env : Env) (prev : SGraph) (sup : List String) (input : Ctx) (n : String) :
+def decisionBinding (g : Drg) (env : Env) (prev : SGraph) (sup : Ctx) (input : Ctx) (n : String) :
     List String → Option Value
   | [] => none
   | id :: ids =>
@@ -145,12 +144,12 @@ def decisionBinding (g : Drg) (env : Env) (prev : SGraph) (sup : List String) (i
 
 def serviceClosure (g : Drg) (prev : SGraph) (s : Service) (input out : Ctx) :
     Outcome (Option String × Ctx) :=
-  -- the input decisions are evaluated as the code evaluates them; their values are replaced
-  -- by the supplied ones (`serviceInputs`)
-  match foldCtx (fun id c => dropName (callDecision g prev id (Ctx.keys input) input c)) s.inputDecisions [] with
+  -- the input decisions are evaluated on the input data, outside any decision service; their
+  -- values are replaced by the supplied ones (`serviceInputDecisions`)
+  match foldCtx (fun id c => dropName (callDecision g prev id [] input c)) s.inputDecisions [] with
   | .ok results =>
     let evaluatedInput := g.serviceInputs s results input
-    let sup := (g.inputDecisionVars s).map Prod.fst
+    let sup := g.serviceInputDecisions s results input
     match foldCtx (fun id c => dropName (callDecision g prev id sup evaluatedInput c)) s.encapsulated [] with
     | .ok c1 =>
       match outputLoop (fun id c => callDecision g prev id sup evaluatedInput c) s.output [] c1 with
